@@ -752,6 +752,62 @@ pub fn strip_defaults_by(
     }
 }
 
+/// A (valid) default with the members it omits filled in from the members'
+/// own schema defaults, recursively: "the schema's default up to filling of
+/// nested defaults".
+pub fn fill_nested_defaults(value: &Value, schema: &Value, defs: &Defs, depth: u32) -> Value {
+    if depth > 8 {
+        return value.clone();
+    }
+    let s = deref(schema, defs, 0);
+    match value {
+        Value::Object(m) => {
+            let Some(props) = s.get("properties").and_then(|p| p.as_object()) else { return value.clone() };
+            let mut out = Map::new();
+            for (k, v) in m {
+                match props.get(k) {
+                    Some(ps) => out.insert(k.clone(), fill_nested_defaults(v, ps, defs, depth + 1)),
+                    None => out.insert(k.clone(), v.clone()),
+                };
+            }
+            for (k, ps) in props {
+                if out.contains_key(k) {
+                    continue;
+                }
+                // the default sits on the property schema itself, or next to a reference.
+                // Members whose schema is an INLINE object are left out: typify does not
+                // honour their default at all (known finding `property-defaults:absent|struct{…`),
+                // which the probes of the enclosing type report on their own.
+                if ps.get("type") == Some(&Value::String("object".into())) && ps.get("$ref").is_none() && ps.get("allOf").is_none() {
+                    continue;
+                }
+                if let Some(d) = ps.get("default") {
+                    let mut stripped = ps.clone();
+                    if let Some(o) = stripped.as_object_mut() {
+                        o.remove("default");
+                    }
+                    if validate(&stripped, d, defs, 0) == Some(true) {
+                        out.insert(k.clone(), fill_nested_defaults(d, &stripped, defs, depth + 1));
+                    }
+                }
+            }
+            Value::Object(out)
+        }
+        Value::Array(items) => match s.get("items") {
+            Some(Value::Array(schemas)) => Value::Array(
+                items
+                    .iter()
+                    .enumerate()
+                    .map(|(i, it)| schemas.get(i).map(|sc| fill_nested_defaults(it, sc, defs, depth + 1)).unwrap_or_else(|| it.clone()))
+                    .collect(),
+            ),
+            Some(sc @ Value::Object(_)) => Value::Array(items.iter().map(|it| fill_nested_defaults(it, sc, defs, depth + 1)).collect()),
+            _ => value.clone(),
+        },
+        other => other.clone(),
+    }
+}
+
 pub fn default_sites(schema: &Value, path: &str, defs: &Defs) -> Vec<DefaultSite> {
     let mut out = Vec::new();
     walk_defaults(schema, path, defs, &mut out);
